@@ -510,6 +510,11 @@ def run_replay(spec, inputs):
     mod, fn = spec.split(":")
     f = getattr(importlib.import_module(mod), fn)
     try:
+        import attr as _attr
+        _attr.validators.set_disabled(False)  # a lifted run of changed code may have left attrs' global switch flipped: replays start clean
+    except Exception:
+        pass
+    try:
         with unpatched():
             out = f(dict(inputs))
     except symx.Unsupported as e:
